@@ -14,13 +14,14 @@ import (
 )
 
 type affEnv struct {
-	reg *Region // may be nil
+	reg  *Region              // may be nil
+	vals map[string]ssa.Value // atom -> the value it stands for
 }
 
 func (e *affEnv) resolve(v ssa.Value) ssa.Value {
-	v = stripConv(v)
+	v = stripNum(stripConv(v))
 	if e.reg != nil {
-		v = stripConv(e.reg.Resolve(v))
+		v = stripNum(stripConv(e.reg.Resolve(v)))
 	}
 	// load of a single-store cell
 	if u, ok := v.(*ssa.UnOp); ok && u.Op == token.MUL {
@@ -40,7 +41,109 @@ func (e *affEnv) atom(v ssa.Value) string {
 	} else if p, ok := v.(*ssa.Parameter); ok {
 		fn = fnName(p.Parent())
 	}
-	return fmt.Sprintf("%s@%s", v.Name(), fn)
+	a := fmt.Sprintf("%s@%s", v.Name(), fn)
+	if e.vals == nil {
+		e.vals = map[string]ssa.Value{}
+	}
+	e.vals[a] = v
+	return a
+}
+
+// single: if l is exactly one atom with coefficient 1 and no constant, the value it stands for
+func (e *affEnv) single(l lin) ssa.Value {
+	if l.c != 0 {
+		return nil
+	}
+	var v ssa.Value
+	n := 0
+	for a, k := range l.t {
+		if k == 0 {
+			continue
+		}
+		if k != 1 {
+			return nil
+		}
+		n++
+		v = e.vals[a]
+	}
+	if n != 1 {
+		return nil
+	}
+	return v
+}
+
+func linIsZero(l lin) bool { return linEq(l, konst(0)) }
+
+// strideOf: v as a function of the iteration of the loop it lives in:
+// value in the first iteration and the amount it grows by per iteration.
+// Loop-invariant values have stride 0.
+//
+//	i*k          (i counting from i0 by 1)   -> (i0*k, k)
+//	acc = phi(a, acc+s)                      -> (a, s)
+//	sums/differences/conversions of those
+func (e *affEnv) strideOf(v ssa.Value) (init, stride lin, ok bool) { return e.strideRec(v, 0) }
+
+func (e *affEnv) strideRec(v ssa.Value, d int) (init, stride lin, ok bool) {
+	v = e.resolve(v)
+	if d > 10 {
+		return konst(0), konst(0), false
+	}
+	switch x := v.(type) {
+	case *ssa.Phi:
+		if len(x.Edges) != 2 {
+			return konst(0), konst(0), false
+		}
+		for i, ed := range x.Edges {
+			b, isB := stripNum(stripConv(ed)).(*ssa.BinOp)
+			if !isB || b.Op != token.ADD {
+				continue
+			}
+			var step ssa.Value
+			switch {
+			case stripNum(stripConv(b.X)) == ssa.Value(x):
+				step = b.Y
+			case stripNum(stripConv(b.Y)) == ssa.Value(x):
+				step = b.X
+			default:
+				continue
+			}
+			_, ss, sok := e.strideRec(step, d+1)
+			if !sok || !linIsZero(ss) {
+				return konst(0), konst(0), false
+			}
+			return e.Of(x.Edges[1-i]), e.Of(step), true
+		}
+		return konst(0), konst(0), false
+	case *ssa.BinOp:
+		switch x.Op {
+		case token.ADD, token.SUB:
+			ai, as, aok := e.strideRec(x.X, d+1)
+			bi, bs, bok := e.strideRec(x.Y, d+1)
+			if !aok || !bok {
+				return konst(0), konst(0), false
+			}
+			if x.Op == token.SUB {
+				return ai.sub(bi), as.sub(bs), true
+			}
+			return ai.add(bi), as.add(bs), true
+		case token.MUL:
+			ai, as, aok := e.strideRec(x.X, d+1)
+			bi, bs, bok := e.strideRec(x.Y, d+1)
+			if !aok || !bok {
+				return konst(0), konst(0), false
+			}
+			switch {
+			case linIsZero(as) && linIsZero(bs):
+				return e.Of(v), konst(0), true
+			case ai.isConst() && as.isConst() && linIsZero(bs):
+				return bi.scale(ai.c), bi.scale(as.c), true
+			case bi.isConst() && bs.isConst() && linIsZero(as):
+				return ai.scale(bi.c), ai.scale(bs.c), true
+			}
+			return konst(0), konst(0), false
+		}
+	}
+	return e.Of(v), konst(0), true
 }
 
 // lenOf: affine form of len(x)
